@@ -118,6 +118,8 @@ impl GpuBackend {
     }
 
     fn node(&self) -> MutexGuard<'_, BackendInternal> {
+        #[cfg(feature = "verif-hooks")]
+        crate::verif::before_mutex(&self.node, "gpu_backend.node.lock");
         self.node.lock().unwrap()
     }
 
